@@ -33,7 +33,7 @@ TESTS = {
                                    why='replay search: source of concrete failing inputs when the deductive check of unit server/trace_ctx is undecided (e.g. a new helper function without a contract) or fails'),
     'deadlines_bounded': dict(file='deadlines_bounded', fn='deadlines_enforced_and_never_early',
                               functions=['tarpc/src/client.rs + client/in_flight_requests.rs (deadline timers, through the public API)', 'tarpc/src/server.rs + server/in_flight_requests.rs (deadline timers, through the public API)'],
-                              bound='paused tokio clock; deadlines {1 s, 10 s, 60 s, 1 h} x peer reply at {never, 0.5 D, 1.1 D} (client) and handler finishing at {never, 0.5 D, 2 D} x channel with/without the request-limit layer (server), next to a second request with deadline 10 D (36 scenarios); probes at 0.8 D (nothing timed out early) and 1.2 D + 5 ms (timed out by then); plus a queued-before-transmission scenario (C05/C11) a call abandoned as its reply arrives whose deadline then passes (C11/C16), and a handler that finishes after its deadline before the channel is polled again (C06)',
+                              bound='paused tokio clock; deadlines {1 s, 10 s, 60 s, 1 h} x peer reply at {never, 0.5 D, 1.1 D} (client) and handler finishing at {never, 0.5 D, 2 D} x channel with/without the request-limit layer (server), next to a second request with deadline 10 D (36 scenarios); probes at 0.8 D (nothing timed out early) and 1.2 D + 5 ms (timed out by then); plus a queued-before-transmission scenario (C05/C11) a call abandoned as its reply arrives whose deadline then passes (C11/C16), a handler that finishes after its deadline before the channel is polled again (C06), and 1..=2 calls that expire unanswered followed by 1..=2 further calls and then late (duplicated) replies bearing the expired ids (C01: the later calls are not disturbed)',
                               why='replay search: source of concrete failing inputs when the deductive checks of the deadline clauses are undecided or fail'),
     'client_faults_bounded': dict(file='client_faults_bounded', fn='client_fault_injection',
                                   functions=['tarpc/src/client.rs::RequestDispatch (through the public API, hand-written failing transport)'],
